@@ -465,7 +465,7 @@ func runCheck(id, tier string, pl plan) int {
 					out, err := runWorker(bin, env, outFile, timeout)
 					mu.Lock()
 					if err != nil {
-						harnessErr = append(harnessErr, fmt.Sprintf("worker %s/%s chunk %d: %v\n%s", p.World, p.Profile, j, err, tailStr(out, 6000)))
+						harnessErr = append(harnessErr, fmt.Sprintf("worker %s/%s chunk %d: %v\n%s", p.World, p.Profile, j, err, headTail(out, 4000)))
 						mu.Unlock()
 						return
 					}
@@ -671,6 +671,14 @@ func firstLine(s string) string {
 	return s
 }
 
+// headTail keeps the beginning (where a Go runtime failure names its cause) and the end of a long output
+func headTail(s string, n int) string {
+	if len(s) <= 2*n {
+		return s
+	}
+	return s[:n] + "\n... [" + strconv.Itoa(len(s)-2*n) + " bytes omitted] ...\n" + s[len(s)-n:]
+}
+
 func tailStr(s string, n int) string {
 	if len(s) > n {
 		return "..." + s[len(s)-n:]
@@ -836,7 +844,7 @@ func mutants(args []string) int {
 			}
 		case code == 2:
 			res = "harness-error"
-			fmt.Println(tailStr(string(out), 3000))
+			fmt.Println(headTail(string(out), 3000))
 			survived++
 		default:
 			survived++
